@@ -272,3 +272,79 @@ M('C15-n-rename', 'C15', F_LUA,
   "        w = UNICODE_CHAR_WIDTHS[s[idx]]\n"
   "        result.append(UNICODE_TO_P8SCII[s[idx:idx + w]])\n"
   "        idx += w\n", kind='neutral')
+
+# ---------------------------------------------------------------- C07 ----
+M('C07-shr-before-lshr', 'C07', F_LEXER,
+  "b'~', b'<<>', b'>>>', b'>><', b'<<', b'>>',",
+  "b'~', b'<<>', b'>>', b'>>>', b'>><', b'<<',", expect='R-C07-table')
+M('C07-dot-before-dotdot', 'C07', F_LEXER,
+  "        br'\\.\\.\\.', br'\\.\\.', br'\\.']])",
+  "        br'\\.\\.\\.', br'\\.', br'\\.\\.']])", expect='R-C07-table')
+M('C07-names-before-keywords', 'C07', F_LEXER,
+  "_TOKEN_MATCHERS.extend([\n    (re.compile(keyword+",
+  "_TOKEN_MATCHERS.extend([\n"
+  "    (re.compile(br'[a-zA-Z_\\x80-\\xff][a-zA-Z0-9_\\x80-\\xff]*'), TokName)])\n"
+  "_TOKEN_MATCHERS.extend([\n    (re.compile(keyword+", expect='R-C07-table')
+M('C07-revert-fix07-exponent', 'C07', F_LEXER,
+  "(re.compile(br'[0-9]+(\\.(?!\\.)[0-9]*)?([eE][+-]?[0-9]+)?'), TokNumber),",
+  "(re.compile(br'[0-9]+(\\.(?!\\.)[0-9]*)?([eE]-?[0-9]+)?'), TokNumber),",
+  expect='R-C07-table')
+M('C07-revert-fix08-keyword-boundary', 'C07', F_LEXER,
+  "    (re.compile(keyword+br'(?![a-zA-Z0-9_\\x80-\\xff])'), TokKeyword)",
+  "    (re.compile(br'\\b'+keyword+br'\\b'), TokKeyword)", expect='R-C07-table')
+M('C07-revert-fix09-lower', 'C07', F_LEXER,
+  "        data = self._data.lower()\n", "        data = self._data\n",
+  expect='R-C07-value')
+M('C07-revert-fix24-empty-int', 'C07', F_LEXER,
+  "                integer, frac = data[2:].split(b'.')\n"
+  "                return (\n"
+  "                    float(int(integer or b'0', 16)) +",
+  "                integer, frac = data.split(b'.')\n"
+  "                return (\n"
+  "                    float(int(integer, 16)) +", expect='R-C07-value')
+M('C07-drop-keyword', 'C07', F_LEXER,
+  "b'repeat', b'return', b'then',", "b'repeat', b'then',",
+  expect='R-C07-table')
+M('C07-name-class-narrow', 'C07', F_LEXER,
+  "    (re.compile(br'[a-zA-Z_\\x80-\\xff][a-zA-Z0-9_\\x80-\\xff]*'), TokName),",
+  "    (re.compile(br'[a-zA-Z_\\x80-\\xff][a-zA-Z0-9_\\x80-\\xfe]*'), TokName),",
+  expect='R-C07-table')
+M('C07-missing-symbol', 'C07', F_LEXER,
+  "        b'@', br'\\$',", "        b'@',", expect='R-C07-table')
+M('C07-no-break-first-match', 'C07', F_LEXER,
+  "                    i = len(m.group(0))\n                    break\n",
+  "                    i = len(m.group(0))\n", expect='R-C07-table')
+M('C07-block-comment-skip', 'C07', F_LEXER,
+  "                i = s.index(b']]') + 2\n", "                i = s.index(b']]') + 1\n",
+  expect='R-C07-multiline')
+M('C07-string-state-not-reset', 'C07', F_LEXER,
+  "                    self._in_string_charno = None\n"
+  "                    self._in_string = None\n                    i += 1\n",
+  "                    self._in_string_charno = None\n                    i += 1\n",
+  expect='R-C07-multiline')
+M('C07-unterminated-comment-ok', 'C07', F_LEXER,
+  "        if self._in_multiline_comment is not None:\n"
+  "            # TODO: Allow unterminated multiline comments to just be comments.\n"
+  "            raise LexerError('Unterminated multiline comment',\n"
+  "                             self._in_multiline_comment_lineno,\n"
+  "                             self._in_multiline_comment_charno)\n",
+  "", expect='R-C07-multiline')
+M('C07-comment-spans-newline', 'C07', F_LEXER,
+  "    (re.compile(br'//.*'), TokComment),",
+  "    (re.compile(br'//(.|\\n)*'), TokComment),", expect='R-C07-')
+M('C07-charno-double', 'C07', F_LEXER,
+  "            else:\n                self._cur_charno += 1\n        return i\n",
+  "            else:\n                self._cur_charno += 2\n        return i\n",
+  expect='R-C07-pos')
+M('C07-none-class-row', 'C07', F_LEXER,
+  "    (re.compile(br'\\r'), TokNewline),",
+  "    (re.compile(br'\\r'), TokNewline),\n    (re.compile(br'\\x0c'), None),",
+  expect='R-C07-rows')
+M('C07-n-swap-independent-symbols', 'C07', F_LEXER,
+  "        b'&', br'\\|', br'\\^\\^',", "        br'\\|', b'&', br'\\^\\^',",
+  kind='neutral')
+M('C07-n-split-decimal-row', 'C07', F_LEXER,
+  "(re.compile(br'[0-9]+(\\.(?!\\.)[0-9]*)?([eE][+-]?[0-9]+)?'), TokNumber),",
+  "(re.compile(br'[0-9]+\\.(?!\\.)[0-9]*([eE][+-]?[0-9]+)?'), TokNumber),\n"
+  "    (re.compile(br'[0-9]+([eE][+-]?[0-9]+)?'), TokNumber),",
+  kind='neutral')
